@@ -10,6 +10,9 @@ type Harness struct {
 	Conc     bool
 	StrPool  []string
 	Note     string
+	// ModelOnly: the harness runs against an environment model of the engine (symbolic file system,
+	// scheduler) that has no native counterpart; its counterexamples are reported as found in the model.
+	ModelOnly bool
 }
 
 type Check struct {
@@ -57,6 +60,10 @@ var lemClone = Harness{Dir: "bsonkit", Func: "H_LEM_clone", Quick: P{"eagerclone
 var lemCloneFresh = Harness{Dir: "bsonkit", Func: "H_LEM_clone_fresh", Quick: P{"eagerclone": 1, "depth": 1}, Thorough: P{"eagerclone": 1, "depth": 2, "tags": (TAll &^ TBinary) | TFlatArr},
 	Note: "lemma: a clone shares no mutable memory with its source (binary payloads excepted, as documented)"}
 
+var schedAssumptions = append([]string{"scheduler model (engine/sched.go): goroutines of the interpreted program are interleaved only at synchronisation operations (mutex lock, channel send/receive, select, go, goroutine end, WaitGroup.Wait); this covers all behaviours of data-race-free programs - freedom from data races on Engine/Session/Stream/Transaction fields is assumed, not checked",
+	"sync.Mutex/RWMutex, channels, select, sync/atomic, time.Timer/Ticker are modelled by the engine; context and gopkg.in/tomb.v2 run from their real SSA; timers fire only when no goroutine can run",
+	"counterexamples are schedules of the model and are not replayed natively (the Go scheduler cannot be steered without hooks)"}, commonAssumptions...)
+
 const stQuickTags = TNull | TInt32 | TString | TArray
 
 var stBounds = []string{"canonical state: namespace db.c with <= maxdocs documents {_id: i, a?: X, b?: Y} inserted through the real Transaction.Insert, optional secondary index on a (unique or not, partial {b: {$gt: c}} or not); X from tags (arrays <= 2 elements of ctags), Y int32/null",
@@ -83,6 +90,75 @@ var checks = []Check{
 		Bounds: []string{"document: <= 2 fields (keys a,b), values null/int32/int64/double/string/bool/array/document, arrays and sub-documents of length <= 2, nesting depth ddepth; paths from {a,b,a.a,a.0,a.0.a,c}; operands any value of the same domain with depth vdepth",
 			"oracle harnesses (refcmp, refmisc) restrict to the core domain of the property: no arrays directly inside arrays; fan-out over sub-documents only with a non-null scalar operand",
 			"outside: $jsonSchema, Decimal128, regex operands, date/timestamp/objectid/binary field values in the filter harnesses (covered for Compare by C12)"},
+	},
+	{
+		Property: "C17",
+		Harnesses: []Harness{
+			{Dir: ".", Func: "H_C17_driver", Quick: P{"fixedclock": 1}, Thorough: P{"fixedclock": 1}, Note: "driver API: returned ids, distinct values, decoded documents and arguments vs the engine's catalog"},
+			{Dir: ".", Func: "H_C17_txn", Quick: P{"maxdocs": 1, "tags": TInt32 | TString | TArray, "ctags": TInt32, "fixedclock": 1}, Thorough: P{"maxdocs": 2, "tags": stQuickTags, "ctags": TInt32, "fixedclock": 1}, Note: "engine-level inserts and replacements are cloned"},
+			lemClone, lemCloneFresh,
+		},
+		Assumptions: append([]string{"reachability monitor: two values alias iff a mutable heap slot (slice backing array, map, pointer target) of the engine heap is reachable from both; this decides aliasing without guessing which mutation would expose it",
+			"the BSON codec (bsonkit.Transform / Decode) is stubbed as a structure-preserving copy into fresh memory (its contract); aliasing that the real codec itself would introduce or remove (e.g. Binary data sharing inside the driver) is outside the claim"}, commonAssumptions...),
+		Bounds: []string{"driver level: InsertOne, InsertMany, UpdateOne(upsert), Distinct, FindOne().Decode with an _id that is an int32, string, document, array or binary, and nested array/document field values", "transaction level: Insert and Replace(+upsert) from the canonical state with an argument holding nested containers"},
+	},
+	{
+		Property: "C18",
+		Harnesses: []Harness{
+			{Dir: ".", Func: "H_C18_upload", Quick: P{"maxlen": 5}, Thorough: P{"maxlen": 8, "maxchunk": 4, "maxbuf": 6}},
+			{Dir: ".", Func: "H_C18_download", Quick: P{"maxlen": 3, "steps": 2, "maxread": 2, "maxchunk": 2, "maxbuf": 2}, Thorough: P{"maxlen": 5, "steps": 3, "maxread": 3, "maxchunk": 3, "maxbuf": 3}},
+		},
+		Assumptions: append([]string{"the real UploadStream/DownloadStream code runs against in-memory mock collections written in the harness (insert copies the chunk bytes as the codec would; Find returns the file's chunks sorted by n after skip); the collection layer under the bucket is C01's subject",
+			"streams are built in-package with a small upload buffer: the code uses len(s.buffer) only, so the 16 MiB constant is a parameter"}, commonAssumptions...),
+		Bounds: []string{"content of 0..maxlen arbitrary bytes, chunk size 1..maxchunk, upload buffer 1..maxbuf with chunk size <= buffer size (a chunk larger than the buffer makes Write spin forever: outside the domain, noted in DESIGN.md), the content split into three writes at arbitrary cut points",
+			"download: scripts of <= steps operations, each a Read with a buffer of 0..maxread bytes or a Seek with any offset in (-10^6, 10^6) and any whence, compared step by step with an in-memory reference reader",
+			"outside: tracked uploads (markers, Suspend/Resume/Abort), Delete, sizes beyond the bound"},
+	},
+	{
+		Property: "C16",
+		Harnesses: []Harness{
+			{Dir: ".", Func: "H_C16_protocol", Quick: P{"actors": 2, "preempt": 1, "partners": 2, "fixedclock": 1}, Thorough: P{"actors": 2, "preempt": 2, "fixedclock": 1}, Conc: true, ModelOnly: true},
+			{Dir: ".", Func: "H_C05_engine", Quick: P{"fixedclock": 1}, Thorough: P{}, Note: "a failing store: error reported, state unchanged, slot released, later commits work"},
+		},
+		Assumptions: schedAssumptions,
+		Bounds: []string{"2 actors, each one of: plain write; session transaction ended by commit/abort/end-session; raw Begin + Commit with a failing store; write with a context cancelled concurrently; write transaction whose callback panics; callback returning an error; engine shutdown. Quick: every kind against a plain writer and against shutdown, pre-emption bound 1; thorough: all pairs, pre-emption bound 2",
+			"after all actors finished a probe write must succeed without waiting (or return the closed error after shutdown); any deadlock, escaped panic (semaphore over-release) or blocked shutdown on any schedule is a violation",
+			"outside: 3-4 actors, wall-clock promptness, goroutine leaks inside tomb/context"},
+	},
+	{
+		Property: "C04",
+		Harnesses: []Harness{
+			{Dir: ".", Func: "H_C04_inc", Quick: P{"actors": 2, "preempt": 1, "fixedclock": 1}, Thorough: P{"actors": 2, "preempt": 2, "fixedclock": 1}, Conc: true, ModelOnly: true},
+		},
+		Assumptions: schedAssumptions,
+		Bounds: []string{"2 actors on one counter document with a symbolic initial value: single $inc update, session transaction read-then-replace(read+1), or reader; every interleaving at synchronisation granularity within the pre-emption bound",
+			"asserted: final value = initial + successful increments (no lost update), exactly one change event per committed write, every read value explained by a committed prefix",
+			"outside: 3+ actors, insert/delete mixes, real-time order beyond what the counter shows"},
+	},
+	{
+		Property: "C09",
+		Harnesses: []Harness{
+			{Dir: ".", Func: "H_C09_seq", Quick: P{"maxevents": 2, "fixedclock": 1}, Thorough: P{"maxevents": 3, "fixedclock": 1}},
+			{Dir: ".", Func: "H_C09_lost", Quick: P{"fixedclock": 1}, Thorough: P{"fixedclock": 1}},
+			{Dir: ".", Func: "H_C09_conc", Quick: P{"maxwrites": 1, "preempt": 2, "fixedclock": 1}, Thorough: P{"maxwrites": 2, "preempt": 2, "fixedclock": 1}, Conc: true, ModelOnly: true},
+		},
+		Assumptions: schedAssumptions,
+		Bounds: []string{"sequential: <= maxevents committed events (inserts and collection drops over 2 databases x 2 collections), stream scope client/database/collection, start position at any event (resume token) or before everything (start time 0); expected sequence = scope-filtered suffix, invalidate after a drop of the watched namespace; lost position after retention removed the stream's position",
+			"concurrent: one consumer blocked in Next, one writer committing 1..maxwrites events then optionally closing the stream or cancelling the consumer's context; every interleaving within the pre-emption bound; a consumer left blocked with an undelivered event shows up as deadlock",
+			"outside: startAfter (same code path as resumeAfter), pipelines (rejected by lungo), wall-clock latency"},
+	},
+	{
+		Property: "C05",
+		Harnesses: []Harness{
+			{Dir: "dbkit", Func: "H_C05_atomic", Quick: P{}, Thorough: P{}, ModelOnly: true},
+			{Dir: "dbkit", Func: "H_C05_stale", Quick: P{}, Thorough: P{}, ModelOnly: true},
+			{Dir: ".", Func: "H_C05_engine", Quick: P{"fixedclock": 1}, Thorough: P{}, Note: "engine clause: a failing store"},
+		},
+		Assumptions: []string{"the file-system model of engine/fs.go (DESIGN.md 3.6) is the trusted part: POSIX-style semantics where un-fsynced file data and directory entries may or may not survive a power loss, torn content possible for unsynced data, rename atomic in the volatile view; the real kernel/file system is not exercised",
+			"os.Remove/OpenFile/Close/Sync/Rename/Open and io.Copy are redirected to the model; every statement of dbkit.AtomicWriteFile is executed from its real SSA",
+			"counterexamples are with respect to the model and are not replayed natively (a process cannot be made to lose power in the sandbox)"},
+		Bounds: []string{"one AtomicWriteFile call from an arbitrary prior disk state (target present or not, stale temporary file present or not); crash before any of the (<= 10) file-system calls or in the middle of the write; at most one injected failing call per run; every post-crash choice the model permits",
+			"outside: several commits in sequence (each starts from 'target = last committed image' by the one-step argument), the codec (bson.Marshal of the image), FileStore.Load decoding"},
 	},
 	{
 		Property: "C15",
@@ -132,6 +208,7 @@ var checks = []Check{
 		Harnesses: []Harness{
 			{Dir: ".", Func: "H_STEP", Quick: P{"prop": 16, "maxdocs": 1, "tags": stQuickTags, "ctags": TInt32}, Thorough: P{"prop": 16, "maxdocs": 2, "tags": stQuickTags, "ctags": TInt32}, Note: "snapshot immutability under every document write"},
 			{Dir: ".", Func: "H_STEP", Quick: P{"prop": 16, "maxdocs": 1, "allops": 1, "tags": TInt32 | TString, "ctags": TInt32, "partial": 0}, Thorough: P{"prop": 16, "maxdocs": 2, "allops": 1, "tags": TInt32 | TString | TArray, "ctags": TInt32}, Note: "snapshot immutability under index builds/drops, namespace drops, retention and expiry"},
+			{Dir: ".", Func: "H_C03_session", Quick: P{"fixedclock": 1}, Thorough: P{}, Note: "atomic visibility: a second client sees nothing until commit and everything after it; abort/end leave no trace; the transaction sees its own writes"},
 			lemClone, lemCloneFresh,
 		},
 		Assumptions: append([]string{"immutability is decided by the freeze monitor on the engine's heap model (slice backing arrays, maps, the real btree nodes): a store into anything reachable from an earlier catalog is a violation on any path; atomic visibility of session transactions (commit/abort) is covered by the engine-level harnesses listed here, interleavings by C04"}, commonAssumptions...),
@@ -161,7 +238,7 @@ var checks = []Check{
 			{Dir: "mongokit", Func: "H_C13_find", Quick: P{"maxdocs": 2, "tags": TInt32 | TString}, Thorough: P{"maxdocs": 2}},
 			{Dir: "mongokit", Func: "H_C13_find", Thorough: P{"maxdocs": 3, "tags": TInt32 | TString}, Note: "three documents, scalar sort keys"},
 			{Dir: "mongokit", Func: "H_C13_write", Quick: P{"maxdocs": 2, "tags": TInt32 | TString}, Thorough: P{"maxdocs": 2}},
-			{Dir: "mongokit", Func: "H_C13_distinct", Quick: P{"maxdocs": 2, "useb": 0}, Thorough: P{"maxdocs": 3, "useb": 0}},
+			{Dir: "mongokit", Func: "H_C13_distinct", Quick: P{"maxdocs": 2, "useb": 0, "symid": 1}, Thorough: P{"maxdocs": 3, "useb": 0, "symid": 1}},
 		},
 		Assumptions: commonAssumptions,
 		Bounds: []string{"collection of <= maxdocs documents {_id: i, a?: X, b?: Y} built through the real Insert; X: null/int32/double/string or an array (<=2) of null/int32/string; Y: int32/string",
